@@ -92,7 +92,12 @@ def o_sighash(case):
                             "%s _signature_hash(code=%s, idx=%d, ht=0x%02x) = %s, reference %s; tx %s" % (
                                 coin, code.hex()[:200], n_in, ht, _h(got), _h(exp), _short(case)))
         # ---- BIP143 entry point
-        got = sc._signature_for_hash_type_segwit(code, n_in, ht)
+        try:
+            got = sc._signature_for_hash_type_segwit(code, n_in, ht)
+        except ScriptError:
+            got = "refused"
+        if got == "refused" and coin in ("bch", "btg") and not ht & 0x40:
+            continue      # the statement lets fork-id coins refuse hash types without the fork-id bit, at either entry point
         if coin in ("btc", "ltc"):
             exp = R.bip143(txd, n_in, code, amount, ht)
         elif coin == "grs":
@@ -181,6 +186,20 @@ def o_closure(case):
             raise Violation("sighash:closure:find-and-delete" if removed else "sighash:closure",
                             "%s sighash closure(ht=0x%02x, blobs=%s) over script %s from %d = %s, reference %s" % (
                                 coin, ht, [b.hex()[:20] for b in blobs], script.hex()[:300], begin, _h(got), _h(exp)))
+    # the closure handed to the VM for witness v0 scripts: BIP143-style digest of the script from `begin`, nothing removed
+    wf = sc._make_witness_sighash_f(n_in)
+    wcode = script[begin:]
+    for ht in case["hts"]:
+        try:
+            got = wf(ht, list(blobs), _VMStub(script, begin))
+        except ScriptError:
+            got = "refused"
+        if got == "refused" and coin in ("bch", "btg") and not ht & 0x40:
+            continue
+        exp = _expected(coin, txd, n_in, wcode, amounts[n_in], ht, 1)
+        if got != exp:
+            raise Violation("sighash:witness-closure", "%s witness sighash closure(ht=0x%02x) over script %s from %d = %s, reference %s" % (
+                coin, ht, script.hex()[:300], begin, _h(got), _h(exp)))
     if _snapshot(tx) != snap:
         raise Violation("sighash:modifies-tx", "transaction changed by signature-hash computation")
     return labels
@@ -203,7 +222,9 @@ def _expected(coin, txd, n_in, code, amount, ht, entry):
 
 
 def o_history(case):
-    """one long-lived SolutionChecker serving many (input, hash type) queries, with the transaction edited in between"""
+    """one SolutionChecker serving many (input, hash type) queries (as the Solver uses it); when the transaction is edited
+    a new checker is made for the same Tx object (the statement speaks of transactions, not of checkers that outlive an
+    edit), so what is tested across edits is state kept on the Tx or at module level"""
     coin = case["coin"]
     T = TX[coin]
     txd = _tx_dict(case)
@@ -237,15 +258,18 @@ def o_history(case):
             k = op[1] % len(txd["outs"])
             txd["outs"][k]["value"] = op[2]
             tx.txs_out[k].coin_value = op[2]
+            sc = T.SolutionChecker(tx)
             labels.append("mutated")
         elif op[0] == "sequence":
             k = op[1] % len(txd["ins"])
             txd["ins"][k]["sequence"] = op[2]
             tx.txs_in[k].sequence = op[2]
+            sc = T.SolutionChecker(tx)
             labels.append("mutated")
         elif op[0] == "locktime":
             txd["locktime"] = op[1]
             tx.lock_time = op[1]
+            sc = T.SolutionChecker(tx)
             labels.append("mutated")
     labels.append("idx-distinct=%d" % min(3, len(seen_idx)))
     return sorted(set(labels))
@@ -320,7 +344,7 @@ def nt(case, labels):
 SUBCHECKS = [
     SubCheck("checker_history", o_history, strategy=s_history, budget=(3000, 300000),
              nontrivial=lambda c, l: "idx-distinct=1" not in l,
-             rule="histories on ONE SolutionChecker object: 2-14 operations, each a digest query (input index, hash type, legacy or BIP143 entry point) or an edit of the transaction (an output value, a sequence number, the lock time); every answer must equal the reference digest of the transaction as it is at that moment (a stale cache is a violation); non-trivial = queries for >= 2 distinct input indices",
+             rule="histories on one Tx object: 2-14 operations, each a digest query (input index, hash type, legacy or BIP143 entry point) through one SolutionChecker, or an edit of the transaction (an output value, a sequence number, the lock time) after which a new checker is made for the same Tx; every answer must equal the reference digest of the transaction as it is at that moment; non-trivial = queries for >= 2 distinct input indices",
              ),
     SubCheck("digests_all_hashtypes", o_sighash, strategy=s_sighash, budget=(480, 30000), nontrivial=nt,
              rule="generated transaction (1-6 inputs, 0-6 outputs, full-range fields) x well-formed script code (grammar incl. code separators and 0xab data bytes) x coin class; for EVERY hash type 0-255 both _signature_hash and _signature_for_hash_type_segwit equal the reference (fork-id coins: ScriptError iff FORKID bit clear); tx snapshot unchanged; non-trivial = >=2 inputs and >=2 outputs, or code containing a 0xab byte"),
